@@ -28,7 +28,7 @@ OUTSIDE = ['numeral / floating literal TEXT -> value (that is strtoull / strtod)
            'token lists with two or more tokens that can both become named options with symbolic names (e.g. "--a" "--?"), symbolic flag groups of '
            'two or more letters ("-??" as 3 symbolic bytes), and split_args inputs longer than 2 bytes: measured out of reach (solver out of '
            'memory at 8-14 GB / no verdict in 10-15 min), see NOTES.md',
-           'Arguments(argv, n) constructor (same parse() behind a trivial loop); get_multi<double>']
+           'Arguments(argv, n) constructor (same parse() behind a trivial loop); get_multi<string> with a symbolic name']
 ASSUMPTIONS = ['units cls: operator-new blocks are zero-filled in the model (gen_defs VERIF_NEW_ZERO, needed for CBMC constant folding): behaviour '
                'that depends on reading UNINITIALISED heap memory is not explored. The same harnesses run natively against the real ASan build '
                '(translation validation) on 60-300 pseudo-random inputs per query',
@@ -99,9 +99,13 @@ def queries(tier):
                 gcells.append((tk, op, 0, kl))
     for op in (12,):
         gcells.append((F2S, op, 0, 1)); gcells.append((F2, op, 0, 1))
+    # get_multi<double/float>: '--?=?'-shaped token (3 symbolic bytes) and the repeated flag '-aa' (two empty values)
+    for op in ((14,) if tier == 'quick' else (14, 15)):
+        for tk in ([LO3] if tier == 'quick' else [LO2, LO3, F2S]):
+            gcells.append((tk, op, 0, 1))
     for (k, l), op, pos, kl in gcells:
         qs.append(dict(name='get_%d%d_op%d_p%d_k%d' % (k, l, op, pos, kl), unit='cls', harness='h_get.c', defs={'K0': k, 'L0': l, 'OP': op, 'POS': pos, 'KLEN': kl},
-                       unwind=8, unwindset='strlen.0:34,verif_memcpy_loop.0:34,verif_memmove_loop.0:34,verif_memmove_loop.1:34', timeout=900, mem_gb=7 if (l >= 5 or op == 4) else 3.5, flags=FAST, tv_runs=100,
+                       unwind=8, unwindset='strlen.0:34,verif_memcpy_loop.0:34,verif_memmove_loop.0:34,verif_memmove_loop.1:34', timeout=900, mem_gb=7 if (l >= 5 or op in (4, 14, 15)) else 3.5, flags=FAST, tv_runs=100,
                        desc='getter op %d on one token (kind %d, length %d), pos %d / symbolic key of %d bytes, then assert_none_unused' % (op, k, l, pos, kl),
                        bounds='one token of kind/length (%d,%d)' % (k, l)))
     for l in (0, 1, 2):
